@@ -4,7 +4,7 @@
 (* with the set of module packages that the real cmd/go recompiled in each  *)
 (* build, read from the compile-start events) must be a behaviour of the    *)
 (* specification, step by step.                                             *)
-EXTENDS BuildCache, Json, SequencesExt
+EXTENDS BuildCache, SequencesExt
 
 Trace == ndJsonDeserialize("buildcache_trace.ndjson")
 VARIABLE l
